@@ -35,6 +35,14 @@ def run(tier, replay=None):
     ev = common.run_driver(binary, (V.driver_row(v) for v in vectors), 'c02a')
     for v in vectors:
         e = ev.get(v['id'])
+        if e is not None and e.get('result') == 'panic' and '/traits/' in (e.get('panic_at') or ''):
+            # the writer aborted on its size assertion: declared size != bytes written
+            chk.count('a:write-panic')
+            chk.violation({'check': 'header', 'family': v['family'], 'version': v['version'], 'dir': v['dir'], 'object': v['object'],
+                           'why_class': 'write panic', 'flag_elseif_taken': 'flag-elseif-taken' in (v.get('feat') or []),
+                           'panic_at': (e.get('panic_at') or '').replace(common.REPO, '')},
+                          {'vector': v, 'event': e, 'why': 'writer aborted: ' + str(e.get('panic_msg'))[:200]})
+            continue
         if e is None or e.get('result') != 'ok':
             chk.count('a:not-decoded')   # decode failures are C01's business
             continue
